@@ -5,6 +5,7 @@ package classifier
 func init() {
 	vxRegister("H06aQ", H06aQ)
 	vxRegister("H06aT", H06aT)
+	vxRegister("H06aT4", H06aT4)
 	vxRegister("H06bQ", H06bQ)
 	vxRegister("H06bT", H06bT)
 	vxRegister("H06bParen", H06bParen)
@@ -29,6 +30,7 @@ var vxNotices = []string{
 
 func H06aQ() { h06a(2) }
 func H06aT() { h06a(3) }
+func H06aT4() { h06a(4) }
 
 // h06a: a copyright-notice line (or ISO date) inserted at a line boundary leaves the tokens of
 // x unchanged (lines after it shift by one) and is itself reported on exactly its line.
